@@ -241,4 +241,86 @@ def _replay_cli_echo(kinds):
         return (rc == 0) != expect_ok, {'kinds': kinds, 'exit': rc, 'stderr': err_[:120]}
     return rp
 
-KERNELS = [k1, k2, k2b, k3]
+# ---------------------------------------------------------------------------------------------- K4 a directory argument stands for the files in it
+@kernel('K4 cli.directory_is_its_file_list')
+def k4(ctx, kr):
+    P = ctx.program(CR)
+    key = P.find_fn('ironplcc', 'cli::enumerate_files')
+    NAMES = ['a.st', 'B.ST', 'c.iec', 'notes.txt', 'noext', '.hidden']
+    st = {}
+    def st_canon(M, fr, c, a):
+        if M.branch(st['canon_ok']): return ok(Str('/abs/' + M.deref(a[0]).conc()))
+        return err(Opaque('io::Error'))
+    def st_meta(M, fr, c, a):
+        if M.branch(st['meta_ok']): return ok(Agg('Metadata', [st['kind']]))
+        return err(Opaque('io::Error'))
+    def st_kind(M, fr, c, a):
+        want = {'is_dir': 0, 'is_file': 1, 'is_symlink': 2}[c.rsplit('::', 1)[1]]
+        return M.deref(a[0]).f[0] == want
+    def st_read_dir(M, fr, c, a):
+        if not M.branch(st['readdir_ok']): return err(Opaque('io::Error'))
+        base = M.deref(a[0]).conc(); out = []
+        for nm, okb in st['entries']:
+            out.append(ok(Agg('DirEntry', [Str(base + '/' + nm)])) if M.branch(okb) else err(Opaque('io::Error')))
+        return ok(IterV(out))
+    stubs = {r'^std::fs::canonicalize(::<.*>)?$': st_canon, r'^std::fs::metadata(::<.*>)?$': st_meta, r'^std::fs::Metadata::(is_dir|is_file|is_symlink)$': st_kind,
+             r'^std::fs::read_dir(::<.*>)?$': st_read_dir, r'^std::fs::DirEntry::path$': lambda M, fr, c, a: M.deref(a[0]).f[0],
+             r'^cli::diagnostic$': lambda M, fr, c, a: VecV([Agg('Diagnostic', [Str('problem')])]),
+             r'^<std::io::Error as std::string::ToString>::to_string$': lambda M, fr, c, a: Str('io error'), r'^std::path::Path::display$': lambda M, fr, c, a: Str('path')}
+    M = Machine(P, stubs=stubs)
+    for n in ((1, 2) if ctx.tier == 'quick' else (1, 2, 3)):
+        def entry(M):
+            st['canon_ok'] = M.fresh_bool('canonicalize_ok'); st['meta_ok'] = M.fresh_bool('metadata_ok'); st['readdir_ok'] = M.fresh_bool('read_dir_ok')
+            k = M.fresh_bv('kind', 8); M.declare_domain(k, [0, 1, 2, 3])
+            st['kind'] = 0 if M.branch(k == 0) else (1 if M.branch(k == 1) else (2 if M.branch(k == 2) else 3))
+            ents = []
+            for i in range(n):
+                sel = M.fresh_bv('name%d' % i, 8); M.declare_domain(sel, list(range(len(NAMES))))
+                j = 0
+                for v in range(len(NAMES) - 1):
+                    if M.branch(sel == v): j = v; break
+                    j = v + 1
+                ents.append((NAMES[j] if i == 0 else '%d%s' % (i, NAMES[j]), M.fresh_bool('entry_ok%d' % i)))
+            st['entries'] = ents
+            return M.call_fn(key, [Ref(Cell(Str('dir')))])
+        def on_path(M, pr):
+            kr.paths += 1
+            if pr.inconclusive: kr.inconc(pr.inconclusive); return
+            kr.nontrivial += 1
+            s = z3.Solver(); s.add(*pr.pc); s.check(); m = s.model(); kr.queries += 1
+            tv = lambda b: z3.is_true(m.eval(b, True))
+            if st['kind'] != 0 or not tv(st['canon_ok']) or not tv(st['meta_ok']) or not tv(st['readdir_ok']): return       # not a readable directory: covered by K3 (errors propagate)
+            names = [nm for nm, okb in st['entries']]
+            readable = [nm for nm, okb in st['entries'] if tv(okb)]
+            wit = {'directory_entries': names, 'readable': readable}
+            if pr.panic: _add(kr, 'C13/K4/panic', 'enumerate_files panics: ' + pr.panic.msg[:60], wit, None); return
+            res = pr.result
+            got = [M.deref(x).conc().rsplit('/', 1)[-1] for x in res.f[0].items] if res.disc == 0 else None
+            if got != readable:
+                missing = [x for x in readable if got is None or x not in got]
+                role = 'C13/K4/directory-differs-from-file-list/' + ('-'.join(sorted({re.sub(r'^\d', '', x).rsplit('.', 1)[-1] if '.' in re.sub(r'^\d', '', x)[1:] else 'noext' for x in missing})) or 'other')
+                _add(kr, role, 'a directory holding %s is expanded to %s: the files %s are never checked' % (readable, got, missing), wit, ('cli_directory', (missing[:1] or readable[:1],)))
+            elif len(kr.validate) < 2 and any(not x.endswith('.st') for x in readable): kr.validate.append(('cli_directory', ([x for x in readable if not x.endswith('.st')][:1],)))
+            if len(kr.samples) < 2: kr.samples.append({'entries': names, 'expanded_to': got})
+        M.explore(entry, on_path, max_paths=20000)
+    kr.queries += M.stats['smt']
+    kr.functions = fn_paths(P, M.encoded); kr.models = sorted(M.models_used)
+    kr.stubs = ['std::fs::{canonicalize, metadata, read_dir} and DirEntry::path as nondeterministic environment (Ok/Err per call, entry names symbolic over %s)' % NAMES, 'Path::extension / OsStr::to_str by documented contract']
+    kr.bounds = 'one directory argument with 1..2 [thorough: 3] entries, each entry name a symbolic choice out of %d names (extensions st / ST / iec / txt / none / dot-file), each entry readable or not' % len(NAMES)
+    kr.exhaustive = True
+    kr.outside = ['nested directories, symbolic links inside the directory']
+
+@replay_factory('cli_directory')
+def _replay_cli_directory(names):
+    def rp(ctx):
+        import tempfile, os, subprocess
+        d = tempfile.mkdtemp(dir=ctx.tmp); bad = 'PROGRAM r\nVAR\n  x : INT;\nEND_VAR\n  y := 1;\nEND_PROGRAM\n'
+        for nm in names: open(os.path.join(d, re.sub(r'^\d', '', nm) if nm[0].isdigit() else nm), 'w').write(bad)
+        files = sorted(os.listdir(d))
+        r_dir = subprocess.run([ctx.ironplcc_path(), 'check', d], capture_output=True, text=True)
+        r_files = subprocess.run([ctx.ironplcc_path(), 'check'] + [os.path.join(d, f) for f in files], capture_output=True, text=True)
+        key = lambda r: (r.returncode != 0, 'OK' in r.stdout.split(), sorted(set(re.findall(r'error\[(P\d{4})\]', r.stderr))))
+        return key(r_dir) != key(r_files), {'directory_holds': files, 'check_directory': key(r_dir), 'check_files': key(r_files)}
+    return rp
+
+KERNELS = [k1, k2, k2b, k3, k4]
